@@ -36,6 +36,17 @@ var (
 	osmType      = reflect.TypeOf(osm.OSM{})
 )
 
+var restartAt = map[reflect.Type]string{
+	osmType:                         "OSM",
+	reflect.TypeOf(osm.Change{}):    "Change",
+	reflect.TypeOf(osm.Node{}):      "Node",
+	reflect.TypeOf(osm.Way{}):       "Way",
+	reflect.TypeOf(osm.Relation{}):  "Relation",
+	reflect.TypeOf(osm.Changeset{}): "Changeset",
+	reflect.TypeOf(osm.Note{}):      "Note",
+	reflect.TypeOf(osm.User{}):      "User",
+}
+
 func (d *differ) add(path, format string, a ...interface{}) {
 	if len(d.out) < 8 {
 		d.out = append(d.out, mismatch{path, fmt.Sprintf(format, a...)})
@@ -101,6 +112,11 @@ func (d *differ) walk(path string, w, g reflect.Value, depth int) {
 			d.walk(path, w.Elem(), g.Elem(), depth)
 		}
 	case reflect.Struct:
+		// paths restart at every container / element type, so that the same
+		// field gives the same violation key wherever the element sits
+		if name, ok := restartAt[w.Type()]; ok {
+			path = name
+		}
 		for i := 0; i < w.NumField(); i++ {
 			f := w.Type().Field(i)
 			if f.Name == "XMLName" {
